@@ -31,6 +31,7 @@ type Change struct {
 	Name     string
 	Comments []string
 	MetaText string // when non-empty, the metavariable section verbatim (layout variants)
+	OrigFill *Fill  // abstracted patterns: the fillers that give back the fragment the pattern was abstracted from
 }
 
 var (
